@@ -106,6 +106,8 @@ type env struct {
 	// propOverride: attribute every violation to this property (families whose
 	// property subsumes the others', e.g. C11 "... the installed entries are exactly those acknowledged").
 	propOverride string
+	// invalidKeys: keys named by the invalid operations of the request being checked (C12: no effect)
+	invalidKeys map[Key]string
 	// snapCache: the implementation snapshot taken once per quiescent-point batch
 	snapCache   Snapshot
 	snapCacheOK bool
@@ -406,6 +408,14 @@ func (e *env) applyVerdict(rec *opRec, res *spb.AFTResult, foreign bool) {
 		if rec.state == opProgrammed {
 			e.report("C06", "conflicting-results", "FAILED after RIB_PROGRAMMED", describeOp(op), false)
 		}
+		if st := op.GetElectionId(); st != nil && less128([2]uint64{st.High, st.Low}, e.maxElec) {
+			// stamped with an id below the highest one announced (e.g. a script session that
+			// announced less than an earlier probe session had): rejected by admission, whatever its content
+			e.probe("operation stamped with a superseded election id rejected")
+			rec.state = opFailed
+			rec.fails++
+			return
+		}
 		v, _, why := e.model.Expect(op)
 		for _, st := range e.failStates {
 			if v2, _, why2 := st.Expect(op); v2 == VFail || v2 == VEither {
@@ -458,6 +468,12 @@ func (e *env) afterQuiescenceChecks(s *session) {
 	}
 	sort.Slice(ids, func(i, j int) bool { return ids[i] < ids[j] })
 	var modelHeld []uint64
+	var implHeld []uint64
+	implHolds := map[uint64]bool{}
+	for _, p := range e.srv.VerifRIB().VerifPending() {
+		implHeld = append(implHeld, p.ID)
+		implHolds[p.ID] = true
+	}
 	for _, id := range ids {
 		rec := e.allOps[id]
 		if rec.state == opProgrammed && e.sess[rec.sess].fibAck && rec.fib == 0 && !rec.unacked {
@@ -496,15 +512,29 @@ func (e *env) afterQuiescenceChecks(s *session) {
 				}
 			}
 			e.report("C06", "unanswered", "operation that must fail got no result", describeOp(rec.op)+": "+why, false)
+			if val, _, _ := e.model.Analyse(rec.op); val == Invalid {
+				sig := "invalid operation got no result"
+				if implHolds[id] {
+					sig = "invalid operation is held instead of being answered FAILED"
+				}
+				e.report("C12", "invalid-unanswered", sig, describeOp(rec.op)+": "+why, false)
+			}
 		case VEither:
+			// An operation of unspecified validity that the implementation chose to accept is subject
+			// to the forward-reference rule like any other: held while its references do not resolve.
+			if _, en, _ := e.model.Analyse(rec.op); en != nil && e.model.FwdRefs && implHolds[id] && !e.model.Resolvable(en) {
+				if rec.state == opSent {
+					e.probe("operation of unspecified validity held for an unresolved reference")
+				}
+				rec.state = opHeld
+				rec.wasHeld = true
+				modelHeld = append(modelHeld, id)
+				continue
+			}
 			e.report("C06", "unanswered", "operation got no result", describeOp(rec.op), false)
 		}
 	}
 	// C02(b): held set seen through the hook equals the model's.
-	var implHeld []uint64
-	for _, p := range e.srv.VerifRIB().VerifPending() {
-		implHeld = append(implHeld, p.ID)
-	}
 	if fmt.Sprint(implHeld) != fmt.Sprint(modelHeld) {
 		extra := diffIDs(implHeld, modelHeld)
 		sig := "held set differs"
@@ -560,6 +590,9 @@ func (e *env) compareState(via string) {
 
 func (e *env) reportDiffs(prop, via string, ds []Diff) {
 	for _, d := range ds {
+		if why, ok := e.invalidKeys[d.Key]; ok && (d.What != "payload" || e.model.Tab[d.Key] == nil || !e.model.Tab[d.Key].Loose) {
+			e.report("C12", "invalid-had-effect", "an operation that must be rejected changed the "+d.Key.Kind.String()+" entry it names ("+d.What+")", why+"; "+d.String()+" ("+via+")", false)
+		}
 		switch d.What {
 		case "missing":
 			e.report(prop, "entry-missing", d.Key.Kind.String()+" acknowledged entry absent ("+via+")", d.String(), false)
